@@ -31,7 +31,7 @@ from ..engine.cfg import own_parts
 from ..engine.report import AnalysisError, Run
 from ..engine.resolver import Program, body_walk
 from ..engine.util import canon, canon_total, find_calls, method_call, u
-from ._c06_util import Flow, HelperCalls, indent_of, inline_all, lifted, names_eq, pruned, unawait, seg, spliced, stmt_patch, truth_atom
+from ._c06_util import VALID_HINT, Flow, HelperCalls, indent_of, inline_all, is_validity_call, validity_name, lifted, names_eq, pruned, unawait, seg, spliced, stmt_patch, truth_atom
 
 STEPS = "timeseries.formula_engine._formula_steps"
 MF = f"{STEPS}:MetricFetcher"
@@ -40,11 +40,12 @@ SYNC_HINT = "_synchronize_and_fetch_fallback"
 
 
 class SelInterp(HelperCalls, Interp):
-    def __init__(self, sync_params: list[str] | None = None, sync_name: str = SYNC_HINT) -> None:
+    def __init__(self, sync_params: list[str] | None = None, sync_name: str = SYNC_HINT, valid_name: str | None = VALID_HINT) -> None:
         super().__init__()
         self.scn: dict[str, Any] = {}
         self.sync_params = sync_params or []
         self.sync_name = sync_name
+        self.valid_name = valid_name
 
     def reset(self) -> None:
         self.scn = {}
@@ -67,10 +68,12 @@ class SelInterp(HelperCalls, Interp):
                 return Obj("stream", who="primary")
             if attr == self.sync_name:
                 return ("m", SYNC_HINT)
-            if attr == "_is_value_valid":
-                return ("m", attr)
+            if attr == self.valid_name:
+                return ("m", VALID_HINT)
             if attr == "_name":
                 return "name"
+        if isinstance(base, Obj) and base.cls == "v" and attr in ("isnan", "isinf"):
+            return ("m", "vprobe", attr, base)  # the validity test written in line on the received value
         if isinstance(base, Obj) and base.cls in ("stream", "fallback") and attr == "receive":
             return ("m", "receive", base)
         if isinstance(base, Obj) and base.cls == "fallback" and attr == "name":
@@ -104,12 +107,25 @@ class SelInterp(HelperCalls, Interp):
                     return Obj("Sample", who="fallback")
                 self.scn["fb"] = False
                 return None
-            if fn[1] == "_is_value_valid":
-                ok = self.choose(2, "primary value valid") == 1
-                self.scn["valid"] = ok
+            if fn[1] == VALID_HINT:
+                ok = self._valid()
                 self.scn["valid_arg"] = pos[0]
                 return ok
+            if fn[1] == "vprobe":
+                # in-line test: an invalid value is present and either NaN or infinite (both explored)
+                ok = self._valid()
+                self.scn["valid_arg"] = fn[3]
+                if ok:
+                    return False
+                if "enc" not in self.scn:
+                    self.scn["enc"] = ("isnan", "isinf")[self.choose(2, "invalid primary value is NaN / infinite")]
+                return fn[2] == self.scn["enc"]
         return super().apply(fn, pos, kw, node)
+
+    def _valid(self) -> bool:
+        if "valid" not in self.scn:
+            self.scn["valid"] = self.choose(2, "primary value valid") == 1
+        return bool(self.scn["valid"])
 
     def handler_matches(self, h: ast.ExceptHandler, name: str) -> bool:
         return "ReceiverError" in u(h.type) if h.type is not None else True
@@ -122,8 +138,9 @@ def check_sel(run: Run, prog: Program) -> None:
     fn = prog.func(f"{MF}.fetch_next_with_fallback")
     run.analysed(fn.qual)
     sname = fallback_sync_name(prog)
-    it = SelInterp([p for p in prog.func(f"{MF}.{sname}").params if p != "self"], sname)
-    it.bind_helpers(prog, fn, keep=(sname, "_is_value_valid"))
+    vname = validity_name(prog)
+    it = SelInterp([p for p in prog.func(f"{MF}.{sname}").params if p != "self"], sname, vname)
+    it.bind_helpers(prog, fn, keep=(sname,) + ((vname,) if vname else ()))
 
     def make_args() -> dict[str, Any]:
         return {"self": Obj("self"), fn.params[1]: Obj("fallback")}
@@ -258,7 +275,7 @@ def fallback_sync_name(prog: Program) -> str:
 def fetch_unit(prog: Program) -> Any:
     """MetricFetcher.fetch_next() as one unit of behaviour: every private callee read in (`_fetch_next`,
     whatever it is called, however it is split, or already inlined), except the shared validity predicate."""
-    return inline_all(prog, prog.func(f"{MF}.fetch_next"), stop={"_is_value_valid"})
+    return inline_all(prog, prog.func(f"{MF}.fetch_next"), stop={validity_name(prog) or VALID_HINT})
 
 
 def _fallback_model(fl: Flow) -> tuple[Any, Any, Any, list[tuple[int, ast.Call]]]:
@@ -271,11 +288,12 @@ def _fallback_model(fl: Flow) -> tuple[Any, Any, Any, list[tuple[int, ast.Call]]
         return isinstance(fl._parent.get(id(c)), ast.Await)
 
     recv = [(nid, c) for nid, c in fl.calls(lambda c: method_call(c, "self._stream", "receive")) if awaited(c)]
+    vname = validity_name(fl.prog)
 
     memo: dict[Any, Any] = {}
     recv_nodes = {nid for nid, _c in recv}
 
-    def scenario(normal_only: bool = False, received: bool | None = None, **assign: bool) -> Any:
+    def scenario(normal_only: bool = False, received: bool | None = None, **assign: Any) -> Any:
         """Edge filter of the scenario: `configured` / `running` / `valid` decide the branches that test them;
         `received` says whether the primary receive returned (True) or raised (False).  Flags computed from
         these conditions are followed through the definitions the scenario can execute."""
@@ -296,13 +314,27 @@ def _fallback_model(fl: Flow) -> tuple[Any, Any, Any, list[tuple[int, ast.Call]]
                     return not ta[1]  # what receive() returned is a sample, never None
             if isinstance(e, (ast.Name, ast.Attribute)) and is_fb(e, nid):
                 return assign.get("configured")
-            if isinstance(e, ast.Call) and method_call(e, "self", "_is_value_valid") and len(e.args) + len(e.keywords) == 1:
-                arg = (e.args + [k.value for k in e.keywords])[0]
-                o = fl.origin1(arg, nid)
-                if o is not None and o.kind == "expr" and isinstance(o.node, ast.Attribute) and o.node.attr == "value":
-                    vo = fl.origin(o.node.value, o.nid, scenario=lambda _f: memo[key])
-                    if vo and all(q.kind == "expr" and any(unawait(q.node) is c for _n, c in recv) for q in vo):
-                        return assign.get("valid")
+            def is_value(x: ast.AST) -> bool:
+                """`x` denotes <the received primary sample>.value"""
+                o = fl.origin1(x, nid)
+                if o is None or o.kind != "expr" or not (isinstance(o.node, ast.Attribute) and o.node.attr == "value"):
+                    return False
+                vo = fl.origin(o.node.value, o.nid, scenario=lambda _f: memo[key])
+                return bool(vo) and all(q.kind == "expr" and any(unawait(q.node) is c for _n, c in recv) for q in vo)
+
+            enc = assign.get("valid")  # True | "none" | "nan" | "inf" (the three encodings of a missing value)
+            arg = is_validity_call(e, vname)
+            if arg is not None and is_value(arg):
+                return None if enc is None else enc is True
+            if enc is not None:
+                # the same test written in line: judged leaf by leaf for the encoding at hand
+                if ta is not None and is_value(ta[0]):
+                    return (enc == "none") if ta[1] else (enc != "none")
+                if isinstance(e, ast.Call) and isinstance(e.func, ast.Attribute) and e.func.attr in ("isnan", "isinf") \
+                        and not e.args and is_value(e.func.value):
+                    if enc == "none":
+                        return None  # would raise on None: only reachable if the None test was wrong -- undecided
+                    return enc == ("nan" if e.func.attr == "isnan" else "inf")
             return None
 
         base = pruned(fl.cfg, lifted(fl, atom, scenario=lambda _f: memo[key]), normal_only=normal_only)
@@ -389,12 +421,13 @@ def check_lazy(run: Run, prog: Program) -> None:
     prim = [(nid, c) for nid, c in recv if cfg.path(cfg.entry, [nid], edge_ok=idle) is not None]
     after = [m for nid, _c in prim for m, lab in cfg.succ[nid] if normal(nid, m, lab)]
     valid_e = scenario(normal_only=True, received=True, configured=True, running=False, valid=True)
-    invalid_e = scenario(normal_only=True, received=True, configured=True, running=False, valid=False)
+    invalid_es = [scenario(normal_only=True, received=True, configured=True, running=False, valid=enc) for enc in ("none", "nan", "inf")]
     # an invalid sample cannot be returned without starting the fallback -- unless the branch is decided by
     # something other than _is_value_valid(<received>.value)
     wit = None
-    for m in after:
-        wit = wit or (cfg.path(m, [cfg.exit], avoid=[st], edge_ok=invalid_e) if m != st else None)
+    for invalid_e in invalid_es:
+        for m in after:
+            wit = wit or (cfg.path(m, [cfg.exit], avoid=[st], edge_ok=invalid_e) if m != st else None)
     ok = len(prim) == 1 and bool(after) and wit is None
     run.check(ok, "C19.LAZY", raw.qual, "validity of the received primary decides",
               "the decision to start the fallback does not use the shared validity predicate "
@@ -412,8 +445,7 @@ def check_lazy(run: Run, prog: Program) -> None:
         run.check(st not in good and bool(rets) and all(is_prim(r) for r in rets),
             "C19.LAZY", raw.qual, "valid primary -> returned, fallback not started",
             "a valid primary sample starts the fallback (or is not returned)", node=raw.node, file=raw.file)
-        bad = cfg.reachable(after, edge_ok=invalid_e)
-        run.check(st in bad, "C19.LAZY", raw.qual, "invalid primary -> fallback started",
+        run.check(all(st in cfg.reachable(after, edge_ok=e_) for e_ in invalid_es), "C19.LAZY", raw.qual, "invalid primary -> fallback started",
                   "an invalid primary sample does not start the fallback", node=raw.node, file=raw.file)
     # a failing primary (handler path) always reaches start()
     for r, _c in prim:
@@ -641,7 +673,8 @@ def build_controls(prog: Program) -> list[tuple[str, str, str, str, str]]:
     fw = prog.func(f"{MF}.fetch_next_with_fallback")
     unit_names = set(getattr(fetch_unit(prog).node, "_inlined", ())) | {"fetch_next"}
     unit_methods = [m for m in mfc.methods.values() if m.name in unit_names]   # whoever holds the logic of fetch_next()
-    for c in find_calls(fw.node, lambda c: method_call(c, "self", "_is_value_valid"))[:1]:
+    vname = validity_name(prog)
+    for c in find_calls(fw.node, lambda c: is_validity_call(c, vname) is not None)[:1]:
         txt = seg(fw.module, c)
         add("validity test inverted", STEPS, stmt_patch(fw, c, lambda t, txt=txt: t.replace(txt, f"(not {txt})", 1)), "C19.SEL")
     # the synchronised fetch: whichever private method the public entry point hands the primary sample to
@@ -653,7 +686,8 @@ def build_controls(prog: Program) -> list[tuple[str, str, str, str, str]]:
         if first is not None:
             ptxt = seg(fw.module, first)
             add("healthy primary skips the fallback read", STEPS, stmt_patch(
-                fw, a, lambda t, ptxt=ptxt: f"{indent_of(t)}if self._is_value_valid({ptxt}.value):\n{indent_of(t)}    return {ptxt}\n" + t), "C19.TICK")
+                fw, a, lambda t, ptxt=ptxt: f"{indent_of(t)}if {ptxt}.value is not None and not {ptxt}.value.isnan() and not {ptxt}.value.isinf():\n"
+                                            f"{indent_of(t)}    return {ptxt}\n" + t), "C19.TICK")
         break
     done: set[str] = set()
     for fn in unit_methods:
@@ -663,7 +697,7 @@ def build_controls(prog: Program) -> list[tuple[str, str, str, str, str]]:
                     and any(isinstance(b, ast.Return) for b in s_.body):
                 add("fallback restarted every round", STEPS, stmt_patch(fn, s_, lambda t: ""), "C19.LAZY")
                 done.add("restart")
-        for c in find_calls(fn.node, lambda c: method_call(c, "self", "_is_value_valid") and len(c.args) == 1)[:1]:
+        for c in find_calls(fn.node, lambda c: is_validity_call(c, vname) is not None and len(c.args) == 1)[:1]:
             if "none" not in done:
                 txt, arg = seg(fn.module, c), seg(fn.module, c.args[0])
                 add("None-only validity when starting the fallback", STEPS,
